@@ -106,11 +106,14 @@ Definition dec_mem (v : list Z) : Z :=
 (* the model gives the same result, and its cost outputs are not under-estimates:
    measured allocation stays within a fixed factor of the modelled cost (Vec growth
    doubles, the allocator rounds), retained memory within a factor of msg_mem *)
+Definition observe_dec (r : res (hdr * list psub)) : dec :=
+  x <- r ;; Ok (fst x, map observe_sub (snd x)).
 Definition C07_model_ok (c : C07_case) : bool :=
-  dec_eqb (parse_observe (c7_bytes c)) (c7_out c) &&
+  let pc := parse_message_cost (c7_bytes c) in
+  dec_eqb (observe_dec (fst pc)) (c7_out c) &&
   (is_panic (c7_out c) ||
-   ((c7_alloc c <=? 4 * message_cost (c7_bytes c) + 1024) &&
-    (c7_kept c <=? 4 * dec_mem (c7_bytes c) + 512))).
+   ((c7_alloc c <=? 4 * snd pc + 1024) &&
+    (c7_kept c <=? 4 * (match fst pc with Ok (_, l) => msg_mem l | _ => 0 end) + 512))).
 
 (* the property: a value or an error, never a panic; peak memory within a small multiple
    of the input length; and (the cost part of the work item) the bytes requested from the
